@@ -265,7 +265,12 @@ def check_program_handles(case) -> list[Fail]:
     from vlib.props.c13 import structure
 
     R, evr = structure(case)
+    # a node whose operation object was given to the builder again later (for other wires) no longer has the
+    # operation it had when its handle was made (recorded finding under C01): only the latest user is judged
+    reused_later = {ev["same_as"] for ev in events if ev.get("same_as") is not None and events[ev["same_as"]]["op"] != ev["op"]}
     for idx, handle, op in r.handles:
+        if idx in reused_later:
+            continue
         reg = events[idx].get("r")
         if reg in R and R[reg]["tree"] != -1:
             continue
@@ -295,6 +300,66 @@ def _call_prog_strategy(tier):
     return proggen.programs(size=14 if tier == "quick" else 22, max_depth=1, roots=("module",), detached=False, call_bias=True)
 
 
+def check_reused_handles(case) -> list[Fail]:
+    """One UnpackTuple / CallIndirect operation object given to the builder twice, for a tuple / function of
+    another width: the handle returned for the second node enumerates the second node's outputs."""
+    import hugr.ops as ops
+    import hugr.tys as tys
+    from hugr.build.dfg import Dfg
+    from hugr.hugr.node_port import OutPort
+
+    from vlib.interp import mk_row
+
+    r1, r2 = mk_row(case["rows"][0]), mk_row(case["rows"][1])
+    if case["op"] == "UnpackTuple":
+        d = Dfg(tys.Tuple(*r1), tys.Tuple(*r2))
+        op = ops.UnpackTuple()
+        args = [[d.inputs()[0]], [d.inputs()[1]]]
+    else:
+        d = Dfg(tys.FunctionType([], r1), tys.FunctionType([], r2))
+        op = ops.CallIndirect()
+        args = [[d.inputs()[0]], [d.inputs()[1]]]
+    handles = []
+    for a in args:
+        if case["mode"] == "add_op":
+            handles.append(d.add_op(op, *a))
+        elif case["mode"] == "add":
+            handles.append(d.add(op(*a)))
+        else:
+            handles.append(d.extend(op(*a))[0])
+    h2 = handles[1]
+    want = [OutPort(h2.to_node(), i) for i in range(len(r2))]
+    try:
+        got = list(h2)
+    except Exception as e:  # noqa: BLE001
+        return [Fail("builder-handle", f"reused-{case['op']}:iteration-raises-{type(e).__name__}", f"second use with {len(r2)} outputs")]
+    if got != want:
+        return [Fail("builder-handle", f"reused-{case['op']}:wrong-outputs", f"{len(got)} ports, the second node has {len(r2)} outputs (first use had {len(r1)})")]
+    return []
+
+
+def _reused_handles_strategy(tier):
+    from vlib import asts
+
+    row = st.lists(asts.types(1, copy_only=True), max_size=4)
+    return st.fixed_dictionaries({"op": st.sampled_from(["UnpackTuple", "CallIndirect"]), "rows": st.tuples(row, row).map(list), "mode": st.sampled_from(["add_op", "add", "extend"])})
+
+
+SUBS.append(
+    Sub("reused-partial-op-handles", check_reused_handles, strategy=_reused_handles_strategy, nontrivial=lambda c: len(c["rows"][0]) != len(c["rows"][1]), classes=lambda c: [c["op"], c["mode"]], n_quick=200, n_thorough=1500)
+)
+
+
+def _reuse_prog_strategy(tier):
+    from vlib import proggen
+
+    return proggen.programs(size=10 if tier == "quick" else 16, max_depth=1, roots=("dfg", "function"), detached=False, reuse_partial=True)
+
+
+SUBS.append(
+    Sub("handles-of-reused-partial-ops", check_program_handles, strategy=_reuse_prog_strategy, nontrivial=lambda c: "partial-op-object-reused-with-other-types" in c.get("classes", []),
+        classes=lambda c: [x for x in c.get("classes", []) if "reused" in x], n_quick=150, n_thorough=1000, sample_ok=lambda c: len(c["events"]) <= 8)
+)
 SUBS.append(
     Sub("call-handles", check_program_handles, strategy=_call_prog_strategy, nontrivial=lambda c: "call" in c.get("classes", []),
         classes=lambda c: [x for x in c.get("classes", []) if x in ("call", "load-function", "row-polymorphic-call", "polymorphic-call")], n_quick=120, n_thorough=1000, sample_ok=lambda c: len(c["events"]) <= 10)
